@@ -56,4 +56,11 @@ PROPS = {
         trusted=["go-ipld-prime traversal engine (checkLinkBudget, SkipMe) outside the model; compared by traces", "whole-stack grid uses the libp2p mocknet"],
         assumptions=["the store answers each link load once per traversal step (Advance / Error)"],
     ),
+    'C17': dict(
+        driver='peermgr', monitors=['MON17'], proof_files=['PeerMgrProofs.v'],
+        level_text="Invariant theorems over all label sequences (Connected, Disconnected, GetProcess, queue self-shutdown, late queue exit with its onShutdown callback) of the PeerManager model: at most one live queue per peer (C17_one_live), the last disconnect leaves no live queue and no table entry (C17_last_disconnect), every send is handed the table's queue (C17_get_process). The model is run against the real peermanager.PeerManager with a scripted process factory each run; the one-live/table monitor is evaluated on the implementation's snapshots.",
+        level_note="Partial: FIFO order inside one queue belongs to the message-queue model (C16); Disconnected is one atomic step in the model although the Go code calls Shutdown() on the removed process just after releasing the table lock (two adjacent statements, no blocking call in between).",
+        trusted=["scripted process factory stands in for messagequeue.MessageQueue's life cycle (Startup, Shutdown, exit callback)"],
+        assumptions=["Disconnected's table removal and the following Shutdown() call are treated as one step"],
+    ),
 }
